@@ -173,7 +173,7 @@ def install(reg):
         src = p.iter_source(args[0])
         if src["kind"] == "concrete":
             return VTuple(src["items"])
-        raise Unsupported("tuple() of symbolic sequence")
+        return p.alloc(HList(rule=(src["len"], src["get"])))      # an immutable snapshot; modelled as a list value
     E["tuple"] = b_tuple
 
     def b_dict(p, args, kw):
